@@ -79,3 +79,62 @@ impl<const NI: usize, const NO: usize, const N: usize> Uf<NI, NO, N> {
         o
     }
 }
+
+/// Lock-step uninterpreted function: the implementation's k-th call (`rec`) draws a fresh output;
+/// the reference's k-th call (`chk`) draws a fresh output constrained to equal the implementation's
+/// k-th output *iff* the inputs are equal.  This constrains the function on fewer input pairs
+/// than full Ackermann consistency, i.e. it is a coarser (still sound) over-approximation of "any
+/// deterministic function", with linear instead of quadratic cost.
+#[allow(dead_code)]
+pub struct LockStep<const NI: usize, const NO: usize, const N: usize> {
+    pub n_rec: usize,
+    pub n_chk: usize,
+    pub inp: [[u64; NI]; N],
+    pub out: [[u64; NO]; N],
+}
+
+#[allow(dead_code)]
+impl<const NI: usize, const NO: usize, const N: usize> LockStep<NI, NO, N> {
+    pub const fn new() -> Self {
+        Self { n_rec: 0, n_chk: 0, inp: [[0; NI]; N], out: [[0; NO]; N] }
+    }
+    fn fresh(mask: [u64; NO]) -> [u64; NO] {
+        let mut o = [0u64; NO];
+        let mut j = 0;
+        while j < NO {
+            let v: u64 = kani::any();
+            o[j] = v & mask[j];
+            j += 1;
+        }
+        o
+    }
+    pub fn rec(&mut self, i: [u64; NI], mask: [u64; NO]) -> [u64; NO] {
+        assert!(self.n_rec < N, "lock-step table overflow: raise N");
+        let o = Self::fresh(mask);
+        self.inp[self.n_rec] = i;
+        self.out[self.n_rec] = o;
+        self.n_rec += 1;
+        o
+    }
+    pub fn chk(&mut self, i: [u64; NI], mask: [u64; NO]) -> [u64; NO] {
+        let o = Self::fresh(mask);
+        if self.n_chk < self.n_rec {
+            let k = self.n_chk;
+            let mut ieq = true;
+            let mut j = 0;
+            while j < NI {
+                ieq &= self.inp[k][j] == i[j];
+                j += 1;
+            }
+            if ieq {
+                let mut j = 0;
+                while j < NO {
+                    kani::assume(o[j] == self.out[k][j]);
+                    j += 1;
+                }
+            }
+        }
+        self.n_chk += 1;
+        o
+    }
+}
